@@ -61,7 +61,7 @@ static bool stop_here(const std::string& e, int kind) { if (!g_monitor) return t
 static RunOut run_history(const Setup& su, const History& h, long* phases = nullptr) {
     RunOut out; std::vector<sw::CellSpec> cs;
     sc::Mesh ico = sc::icosphere(1);
-    for (int i = 0; i < su.ncells; i++) { auto ty = sc::make_cell_type(0, (su.kind == 1 && i == 1) ? 2 : (su.kind == 3 && i == 1) ? 1 : 3); if (su.kind == 2 && i == su.ncells - 1) ty = sc::make_cell_type(1, 1);
+    for (int i = 0; i < su.ncells; i++) { auto ty = sc::make_cell_type(0, (su.kind == 1 && i == 1) ? 2 : (su.kind == 3 && i == 1) ? 1 : 3); if (su.kind == 2 && i == su.ncells - 1) ty = sc::make_cell_type(1, 1); if (su.kind == 5 && i == 1) ty = sc::make_cell_type(2, 1);   /* kind 5: the middle cell is a lumen whose type defines a single face type (only epithelial faces are ever polarised) */
         ty->surface_coupling_max_curvature_ = 1e30; sc::Mesh mi = sc::translated(ico, 2.05 * i, 0, 0);
         if (su.kind == 4 && i == 0) { /* one edge of the first cell far below the minimum edge length: the refiner collapses it in the first iteration and the cell carries free node slots until its next compaction */ unsigned a = mi.tri[0], b = mi.tri[1]; for (int k = 0; k < 3; k++) mi.pos[3*a+k] = mi.pos[3*b+k] + 0.25 * (mi.pos[3*a+k] - mi.pos[3*b+k]); }
         cs.push_back({mi, ty}); }
@@ -118,7 +118,7 @@ static void enumerate(Result& R, const Setup& su, int depth, int max_cells_with_
 
 static void explore(Result& R) {
     const bool th = R.args.thorough();
-    std::vector<Setup> setups = {{2, 0}, {3, 0}, {3, 1}, {3, 2}, {3, 3}, {2, 0, 1}, {3, 0, 1}, {3, 0, 2}, {2, 4}, {3, 4}}; if (th) { setups.push_back({4, 0}); setups.push_back({3, 2, 2}); setups.push_back({3, 1, 1}); }
+    std::vector<Setup> setups = {{2, 0}, {3, 0}, {3, 1}, {3, 2}, {3, 3}, {2, 0, 1}, {3, 0, 1}, {3, 0, 2}, {2, 4}, {3, 4}, {3, 5}}; if (th) { setups.push_back({4, 0}); setups.push_back({3, 2, 2}); setups.push_back({3, 1, 1}); }
     for (auto& su : setups) enumerate(R, su, (th && su.ncells < 4 && su.incoming == 0 && su.kind != 4) ? 3 : 2 /* the id-assignment and sampling setups at depth 2 in both tiers */, th ? 4 : 3);   // thorough: depth 3 for 2-3 cells, depth 2 (81 + 81*81 histories) for 4 cells
     sw::cleanup_scratch();
     R["evaluations"] = R["transitions"]; R["distinct_nontrivial"] = R["states"]; /* replaced by the measured union of final-population keys in the driver */ R["traces_validated_against_impl"] = R["transitions"];
